@@ -505,7 +505,21 @@ fn malformed<F: Backend>(cx: &mut Cx, sub: &mut u64) {
             F::new_grad_slice_eval().eval(&t, &vec![vec![Grad::new(1.0, 0.0, 0.0, 0.0); 4]; n]).is_err()
         });
     }
-    for lens in [[4usize, 3, 4], [0, 1, 0], [9, 9, 8], [1, 0, 0]] {
+    // every triple of slice lengths over {0, 1, 3, 8, 9, 17} that is not
+    // all-equal (longer first, longer later, empty among non-empty, across the
+    // SIMD width)
+    let lset = [0usize, 1, 3, 8, 9, 17];
+    let mut triples = vec![];
+    for a in lset {
+        for b in lset {
+            for c in lset {
+                if !(a == b && b == c) {
+                    triples.push([a, b, c]);
+                }
+            }
+        }
+    }
+    for lens in triples {
         case!(format!("float-slice eval with unequal slice lengths"), {
             let t = f.float_slice_tape(Default::default());
             let cols: Vec<Vec<f32>> = lens.iter().map(|n| vec![1.0; *n]).collect();
@@ -710,14 +724,14 @@ impl Check for C11 {
     }
     fn meta(&self, tier: Tier) -> Meta {
         Meta {
-            rule: "case = (program, box) for interval evaluation, (program) for the point-like evaluators over a whole point grid; programs: every opcode x operand form (reg/reg, same-reg, reg/imm, imm/reg with 6 immediates) on Vfin^2 points and every pair of finite E-intervals; compositions op2(op1(x,y),z) / op2(z,op1(x,y)) with op1 in 11 overflow/invalid producers and op2 in ALL 30 opcodes (thorough: a third level) on a 12^3 grid of points up to +-f32::MAX and a 12^3 grid of boxes up to [-MAX,MAX]; Shape API with 7 matrices (huge, zero, projective); malformed argument lists; on VM and JIT, all four evaluator kinds; oracle: normal return (panics caught, aborts/faults detected through the crash journal), well-formed intervals, Err for malformed arguments; non-trivial = every case (all inputs finite)".into(),
+            rule: "case = (program, box) for interval evaluation, (program) for the point-like evaluators over a whole point grid; programs: every opcode x operand form (reg/reg, same-reg, reg/imm, imm/reg with 6 immediates) on Vfin^2 points and every pair of finite E-intervals; compositions op2(op1(x,y),z) / op2(z,op1(x,y)) with op1 in 11 overflow/invalid producers and op2 in ALL 30 opcodes (thorough: a third level) on a 12^3 grid of points up to +-f32::MAX and a 12^3 grid of boxes up to [-MAX,MAX]; Shape API with 7 matrices (huge, zero, projective); malformed argument lists (too few variables; every not-all-equal triple of slice lengths over {0,1,3,8,9,17}; missing bound variables); on VM and JIT, all four evaluator kinds; oracle: normal return (panics caught, aborts/faults detected through the crash journal), well-formed intervals, Err for malformed arguments; non-trivial = every case (all inputs finite)".into(),
             bounds: match tier {
                 Tier::Quick => "composition depth 2".into(),
                 Tier::Thorough => "composition depth 3 (third level over the producer set)".into(),
             },
             assumptions: vec!["x86_64 JIT only".into()],
             crash_policy: CrashPolicy::Violation,
-            vacuity: vec![("cases", 10000), ("malformed_argument_cases", 20)],
+            vacuity: vec![("cases", 10000), ("malformed_argument_cases", 400)],
             transitions_counter: "evals",
             nontrivial_counter: "cases",
             exhaustive: true,
